@@ -9,12 +9,16 @@ binding holds an i64 (switch arguments: the i64 payload of a variant) with a val
 of a use plus a random constant. Every use site is `pr(id, i64.(name))` (a global function that prints `I id value` through
 vr_i64 and returns the value); uses inside comptime blocks are silent and the value of the whole block is printed.
 
-Monitors, two passes per program.  Pass 1: the program as generated is compiled; the set of `undefined reference to` diagnostics
-(name, line, column) is compared with the set of use sites the oracle predicts to have no visible binding.  Pass 2: the uses
-that are predicted or reported undefined are replaced by the literal 0, the program must now be accepted, it is linked and run
-once per selector value (bit d of VR_SEL picks the branch / variant of every if / switch at branching depth d, so every arm is
-executed in some run), and the value printed by every executed use is compared with the value of the binding the oracle resolves
-the use to.
+Some programs import a second file that defines a global for every pool name (never visible to a bare identifier of main.capy); some
+statements are assignments `a = ..` whose target is a use like any other.
+
+Monitors.  Pass 1: the program as generated is compiled; the set of `undefined reference to` diagnostics (name, line, column) is
+compared with the set of use sites the oracle predicts to have no visible binding.  Pass 2: the uses that are predicted or reported
+undefined are replaced by the literal 0, the program must now be accepted, it is linked and run for up to three selector values (bit d
+of VR_SEL picks the branch / variant of every if / switch at branching depth d), and the value printed by every executed use is
+compared with the value of the binding the oracle resolves the use to.  Three kinds of programs: positive (55 %: every use that would
+be undefined is renamed to a name that is visible there, so pass 1 = pass 2: one compilation), negative (30 %: pass 1 only), mixed
+(15 %: both passes).
 
 Oracle: a scope model that implements the statement's lookup order literally (frames of the enclosing blocks and switch arms of
 the current lambda, innermost first, a definition becoming visible after its own initialiser; then the parameters of the current
@@ -35,9 +39,13 @@ RULE = ("program = 1..3 global functions (0..3 parameters, some comptime) + main
         "switches with argument (statement and expression form, arms in both orders) / local lambdas / comptime blocks, identifiers drawn from "
         "{a,b,c,d} (weight 4 each) and {u8,nil} (weight 1 each), literal globals for a random subset of the names at random positions of the file; "
         "after a statement that binds names, a use of one of those names follows with probability 1/2 (uses after a switch / block / lambda of the "
-        "names bound inside), a use of the defined name precedes a definition with probability 1/6; 30..90 use sites per program. "
+        "names bound inside), a use of the defined name precedes a definition with probability 1/6; assignments to pool names; one program in three imports a "
+        "file with same-named globals; 30..90 use sites per program; 55 % positive programs (no undefined use, compiled once, run for <= 3 selector values), "
+        "30 % negative (only the diagnostics are judged), 15 % mixed (both passes). "
         "non-trivial use = a use site whose verdict was reached (pass-1 diagnostic position and, if executed, printed value); "
-        "distinct = distinct (context, kinds of all bindings of that name visible or formerly visible at the use site innermost first, resolved kind) tuples; "
+        "distinct = distinct (context fn/lambda/comptime/generic, kinds of the visible bindings of that name innermost first, set of (kind, position class) of the "
+        "same-named bindings of the function that are not visible there [ended switch arm / block / lambda, later, own initialiser, across a lambda / comptime "
+        "boundary, imported file], resolved kind or undefined) tuples of uses whose verdict was reached; "
         "evaluations = programs for which both passes reached a verdict")
 ASSUME = ["a lambda body and a comptime block start from an empty stack of block scopes: locals and switch arguments of the enclosing function are not "
           "visible inside them (the repo's lowering snapshot `lambda_dont_capture_scope` pins this for lambdas; capy has no closures); inside a lambda "
@@ -61,7 +69,7 @@ BUILTIN_VALUE = 9
 VIOLATION_CAP = 40
 # where a no-longer / not-yet visible binding of the same name lies relative to a use (see relation()); the order only picks the class named in a signature
 GHOST_ORDER = ["ended_switch_arm", "ended_block", "ended_lambda", "sibling_branch_of_same_statement", "own_initialiser", "later_in_enclosing_block",
-               "later_nested", "across_lambda_boundary", "across_comptime_boundary"]
+               "later_nested", "across_lambda_boundary", "across_comptime_boundary", "global_of_imported_file"]
 
 HELPERS = """pr :: (id: i64, v: i64) -> i64 { vr_i64(id, v); v }
 bit :: (d: i64) -> bool { (vr_sel() / d) % 2 == 1 }
@@ -86,6 +94,7 @@ class Use:
         self.pos = None
         self.stack = None
         self.fn = None
+        self.is_target = False
 
 
 class Block:
@@ -135,6 +144,13 @@ class While:
         self.body, self.wid = body, wid
 
 
+class Assign:
+    """`name = rhs;` when the oracle resolves `name` to a mutable local (`:=` / `: i64 =`) or to nothing (then the target must be reported as undefined);
+    for any other resolution the statement is rendered as a read of `name` followed by the rhs (assigning to those is C14's matter)"""
+    def __init__(self, target, rhs):
+        self.target, self.rhs = target, rhs
+
+
 class Lambda:
     def __init__(self, name, params, body, is_global):
         self.name, self.params, self.body, self.is_global = name, params, body, is_global   # params: [(name, comptime)]
@@ -147,9 +163,23 @@ class Global:
         self.binding = None
 
 
+class Import:
+    """`o :: #import("o.capy");` where o.capy defines a global for every pool name: none of them may ever be seen by a bare identifier of main.capy"""
+    def __init__(self, values):
+        self.values = values      # {name: value}
+        self.bindings = {}
+
+
+class Foreign:
+    """`pr(oid, o.NAME)`: keeps the import alive"""
+    def __init__(self, name, oid):
+        self.name, self.oid = name, oid
+
+
 class Program:
     def __init__(self, items, main, nbits):
-        self.items, self.main, self.nbits = items, main, nbits     # items: Global | Lambda in file order (main included)
+        self.items, self.main, self.nbits = items, main, nbits     # items: Global | Import | Lambda in file order (main included)
+        self.imp = None
 
 
 class Ctx:
@@ -246,8 +276,8 @@ class Gen:
 
     def comptime(self, ctx):
         inner = Ctx(ct=True, generic=ctx.generic, bdepth=ctx.bdepth, depth=max(ctx.depth + 1, MAX_DEPTH - 2))
-        if self.rng.chance(1, 6):
-            body = self.switch(inner, True)
+        if self.rng.chance(1, 30):
+            body = self.switch(inner, True)      # `comptime switch x in ..` (no block in between)
         else:
             body = self.block(inner, True)
         return Comptime(body, self.new_uid())
@@ -271,7 +301,7 @@ class Gen:
         rng = self.rng
         can_branch = ctx.ct or ctx.bdepth < MAX_BDEPTH
         deep = ctx.depth >= MAX_DEPTH
-        opts = [("def", 8), ("use", 7)]
+        opts = [("def", 8), ("use", 7), ("assign", 2)]
         if not deep:
             opts.append(("block", 3))
             if can_branch:
@@ -292,6 +322,12 @@ class Gen:
             st = Def(name, init, rng.pick([":=", "::", ": i64 =", ": i64 :"]))
         elif k == "use":
             st = ExprS(self.use(ctx))
+        elif k == "assign":
+            target = self.use(ctx, None, 0)
+            st = Assign(target, self.expr(ctx.deeper()))
+            out.append(st)
+            out.append(ExprS(self.use(ctx, target.name, 0)))
+            return out
         elif k == "block":
             st = ExprS(self.block(ctx.deeper(), rng.chance(1, 3)))
         elif k == "if":
@@ -353,6 +389,8 @@ def children(n):
         return [n.lam.body]
     if isinstance(n, While):
         return [n.body]
+    if isinstance(n, Assign):
+        return [n.target, n.rhs]
     return []
 
 
@@ -390,12 +428,20 @@ def gen_program(rng, budget):
     g.budget = share
     main = Lambda("main", [], None, True)
     main.body = g.block(Ctx(depth=0), False, extra_calls=fns)
+    imp = None
+    if rng.chance(1, 3):
+        imp = Import({x: g.new_val() for x in POOL})
+        main.body.stmts.insert(rng.below(len(main.body.stmts) + 1), ExprS(Foreign(rng.pick(POOL), g.new_uid())))
     gl_names = [x for x in POOL if rng.chance(2, 5)] + [x for x in BUILTIN if rng.chance(1, 6)]
     items = fns + [main]
     rng.shuffle(items)
     for x in gl_names:
         items.insert(rng.below(len(items) + 1), Global(x, g.new_val()))
-    return Program(items, main, g.maxbit)
+    if imp is not None:
+        items.insert(rng.below(len(items) + 1), imp)
+    prog = Program(items, main, g.maxbit)
+    prog.imp = imp
+    return prog
 
 
 # --------------------------------------------------------------------------- the oracle: scope model
@@ -408,6 +454,11 @@ class Scope:
 class Binding:
     def __init__(self, bid, kind, name, scope, pos):
         self.bid, self.kind, self.name, self.scope, self.pos = bid, kind, name, scope, pos
+        self.mutable = False
+
+
+def assignable(u):
+    return isinstance(u.res, Binding) and u.res.mutable
 
 
 class Model:
@@ -457,6 +508,9 @@ class Model:
             if isinstance(it, Global):
                 it.binding = self.bind("global", it.name, None, -1)
                 self.globals[it.name] = it.binding
+            if isinstance(it, Import):
+                for name in it.values:
+                    it.bindings[name] = self.bind("imported_global", name, None, -1)      # never entered into any table: not visible
         for it in prog.items:
             if isinstance(it, Lambda):
                 self.fn = it.name
@@ -499,12 +553,18 @@ class Model:
         if isinstance(st, Def):
             if self.mutant == "def_before_init":
                 st.binding = self.bind("local", st.name, sc, i)
+                st.binding.mutable = st.form in (":=", ": i64 =")
                 frame[st.name] = st.binding
                 self.expr(st.init, sc, i)
                 return
             self.expr(st.init, sc, i)
             st.binding = self.bind("local", st.name, sc, i)
+            st.binding.mutable = st.form in (":=", ": i64 =")
             frame[st.name] = st.binding
+        elif isinstance(st, Assign):
+            self.expr(st.target, sc, i)
+            st.target.is_target = True
+            self.expr(st.rhs, sc, i)
         elif isinstance(st, ExprS):
             self.expr(st.e, sc, i)
         elif isinstance(st, LamDef):
@@ -515,7 +575,7 @@ class Model:
             raise AssertionError(st)
 
     def expr(self, e, sc, i):
-        if isinstance(e, Lit):
+        if isinstance(e, (Lit, Foreign)):
             return
         if isinstance(e, Use):
             e.res = self.lookup(e.name)
@@ -574,6 +634,8 @@ def relation(b, u):
     """how binding b (of any name) lies relative to use u; 'visible' = visible by the statement's rules"""
     if b.kind == "global":
         return "global"
+    if b.kind == "imported_global":
+        return "global_of_imported_file"
     if b.scope.fn != u.fn:
         return "other_function"
     chain = use_chain(u)
@@ -610,6 +672,9 @@ def ghosts(u, model_bindings):
     for b in model_bindings:
         if b.name != u.name or b.kind == "global":
             continue
+        if b.kind == "imported_global":
+            items.add("imported_global:global_of_imported_file")
+            continue
         r = relation(b, u)
         if r not in ("other_function", "visible"):
             items.add(f"{b.kind}:{r}")
@@ -632,6 +697,9 @@ class Interp:
         for it in self.prog.items:
             if isinstance(it, Global):
                 self.env[it.binding.bid] = it.value
+            if isinstance(it, Import):
+                for name, v in it.values.items():
+                    self.env[it.bindings[name].bid] = v
         self.block(self.prog.main.body)
         return self
 
@@ -643,6 +711,15 @@ class Interp:
                 self.expr(st.e)
             elif isinstance(st, While):
                 self.block(st.body)
+            elif isinstance(st, Assign):
+                t = st.target
+                if t.uid in self.zeroed or t.res == "undef":
+                    self.expr(st.rhs)
+                elif assignable(t):
+                    self.env[t.res.bid] = self.expr(st.rhs)
+                else:
+                    self.expr(t)
+                    self.expr(st.rhs)
         return self.expr(b.tail) if b.tail is not None else 0
 
     def truth(self, n):
@@ -651,6 +728,9 @@ class Interp:
     def expr(self, e):
         if isinstance(e, Lit):
             return e.v
+        if isinstance(e, Foreign):
+            self.events[e.oid] = self.prog.imp.values[e.name]
+            return self.events[e.oid]
         if isinstance(e, Use):
             if e.uid in self.zeroed or e.res == "undef":
                 base, k = 0, e.k
@@ -751,6 +831,8 @@ class Render:
         w = self.wr
         if isinstance(e, Lit):
             w.w(str(e.v))
+        elif isinstance(e, Foreign):
+            w.w(f"pr({e.oid}, o.{e.name})")
         elif isinstance(e, Use):
             self.use(e)
         elif isinstance(e, Block):
@@ -818,6 +900,19 @@ class Render:
         elif isinstance(st, LamDef):
             self.lambda_(st.lam)
             w.w(";")
+        elif isinstance(st, Assign):
+            t = st.target
+            if t.uid in self.zeroed:
+                pass
+            elif t.res == "undef" or assignable(t):
+                self.mark(t)
+                w.w(f"{t.name} = ")
+            else:
+                self.use(t)
+                w.w(";")
+                w.nl()
+            self.expr(st.rhs)
+            w.w(";")
         elif isinstance(st, While):
             w.w(f"w{st.wid} := 0;")
             w.nl()
@@ -842,6 +937,8 @@ class Render:
                 w.nl()
             if isinstance(it, Global):
                 w.w(f"{it.name} : i64 : {it.value};")
+            elif isinstance(it, Import):
+                w.w('o :: #import("o.capy");')
             else:
                 self.lambda_(it)
         return self.head + w.text()
@@ -865,12 +962,12 @@ def build_case(seed, idx, budget, mutant=None):
     pred_undef = {u.uid for u in model.uses if u.res == "undef"}
     nsel = 1 << prog.nbits
     sels = list(range(nsel))
-    if nsel > 4:
-        sels = sorted([0, nsel - 1] + rng.sample(list(range(1, nsel - 1)), 2))
+    if nsel > 2:
+        sels = sorted([0, nsel - 1] + rng.sample(list(range(1, nsel - 1)), 1))      # three runs per program at most (process start-ups dominate the cost)
     uses = {}
     for u in model.uses:
         uses[str(u.uid)] = {"name": u.name, "line": u.line, "col": u.col, "ctx": u.ctx,
-                            "pred": u.res if isinstance(u.res, str) else u.res.kind, "stack": list(u.stack), "ghosts": ghosts(u, model.bindings), "silent": u.ct,
+                            "pred": u.res if isinstance(u.res, str) else u.res.kind, "stack": list(u.stack), "ghosts": ghosts(u, model.bindings), "silent": bool(u.ct or (u.is_target and assignable(u))),
                             "bid": None if isinstance(u.res, str) else u.res.bid,
                             "rel": {str(b.bid): relation(b, u) for b in model.bindings if b.name == u.name}}
     bindings = {str(b.bid): {"kind": b.kind, "name": b.name} for b in model.bindings}
@@ -880,8 +977,13 @@ def build_case(seed, idx, budget, mutant=None):
             obs[str(n.oid)] = "comptime"
         elif isinstance(n, Call):
             obs[str(n.oid)] = "call"
+        elif isinstance(n, Foreign):
+            obs[str(n.oid)] = "imported_global"
+    extra = {}
+    if prog.imp is not None:
+        extra["o.capy"] = "".join(f"{k} : i64 : {v};\n" for k, v in prog.imp.values.items())
     return {"seed": seed, "idx": idx, "mode": mode, "text1": text1, "pred_undef": sorted(pred_undef), "sels": sels, "uses": uses, "bindings": bindings,
-            "obs": obs, "_prog": prog, "_mutant": mutant}
+            "obs": obs, "extra_files": extra, "_prog": prog, "_mutant": mutant}
 
 
 def walk_all(prog):
@@ -928,6 +1030,11 @@ def compile_retry(d, files):
         return c
 
 
+def brief(c):
+    """the CLI's output without the `split_aggregate - ..` debug lines the compiler prints for enum-returning functions"""
+    return "\n".join(l for l in c.brief().splitlines() if not l.startswith("split_aggregate"))[:600]
+
+
 def diags(c):
     return [(m.group(1), int(m.group(2)), int(m.group(3))) for m in DIAG.finditer(c.out)]
 
@@ -935,9 +1042,9 @@ def diags(c):
 def observe(case, d):
     """runs both passes; -> observation record (pure data)"""
     o = {"p1": None, "p2": None, "runs": {}, "text2": None, "exp": None, "zeroed": None}
-    c1 = compile_retry(os.path.join(d, "p1"), {"main.capy": case["text1"]})
+    c1 = compile_retry(os.path.join(d, "p1"), dict(case["extra_files"], **{"main.capy": case["text1"]}))
     o["p1"] = {"accepted": c1.accepted, "rejected": c1.rejected, "internal": c1.internal_error, "psig": c1.panic_sig() if c1.internal_error else None,
-               "watchdog": bool(c1.timed_out or c1.cpu_exceeded or c1.sig in EXTERNAL_SIGNALS), "diags": diags(c1), "brief": c1.brief()[:600]}
+               "watchdog": bool(c1.timed_out or c1.cpu_exceeded or c1.sig in EXTERNAL_SIGNALS), "diags": diags(c1), "brief": brief(c1)}
     if o["p1"]["watchdog"]:
         return o
     pos_to_uid = {(u["line"], u["col"]): int(k) for k, u in case["uses"].items()}
@@ -951,13 +1058,15 @@ def observe(case, d):
         return o
     text2, exp = expectations(case, zeroed)
     o["text2"], o["exp"] = text2, exp
-    if not zeroed and not c1.internal_error:
+    if not zeroed and c1.internal_error:
+        return o                 # same text: pass 2 would only repeat the internal error
+    if not zeroed:
         c2, d2 = c1, os.path.join(d, "p1")
     else:
         d2 = os.path.join(d, "p2")
-        c2 = compile_retry(d2, {"main.capy": text2})
+        c2 = compile_retry(d2, dict(case["extra_files"], **{"main.capy": text2}))
     o["p2"] = {"accepted": c2.accepted, "rejected": c2.rejected, "internal": c2.internal_error, "psig": c2.panic_sig() if c2.internal_error else None,
-               "watchdog": bool(c2.timed_out or c2.cpu_exceeded or c2.sig in EXTERNAL_SIGNALS), "diags": diags(c2), "brief": c2.brief()[:600]}
+               "watchdog": bool(c2.timed_out or c2.cpu_exceeded or c2.sig in EXTERNAL_SIGNALS), "diags": diags(c2), "brief": brief(c2)}
     if c2.accepted:
         exe, err = R.link(d2, c2.obj)
         if exe is None:
@@ -1003,7 +1112,7 @@ def judge(case, o):
             bump(f"use without invisible same-named bindings -> {verdict}")
 
     def wit(extra=None):
-        w = {"files": {"main.capy": case["text1"]}, "seed": case["seed"], "idx": case["idx"], "mode": case["mode"], "pred_undef": case["pred_undef"], "sels": case["sels"],
+        w = {"files": dict(case["extra_files"], **{"main.capy": case["text1"]}), "seed": case["seed"], "idx": case["idx"], "mode": case["mode"], "pred_undef": case["pred_undef"], "sels": case["sels"],
              "uses": case["uses"], "bindings": case["bindings"], "obs": case["obs"]}
         if o.get("text2"):
             w["files"]["pass2.capy"] = o["text2"]
@@ -1169,7 +1278,7 @@ def run(tier, seed, mutant=None, n_override=None):
     C.build_cli()
     C.build_rt()
     work = C.fresh_dir("C05")
-    n = n_override or (400 if tier == "quick" else 12000)
+    n = n_override or (320 if tier == "quick" else 8000)
     viol, inconc, sigs, samples = [], [], set(), []
     cnt = {"programs": 0, "use_sites": 0, "predicted_undefined": 0}
     evals = 0
@@ -1210,7 +1319,7 @@ def run(tier, seed, mutant=None, n_override=None):
                      + "; ".join(f"{k} x{v}" for k, v in sorted(seen_sig.items(), key=lambda kv: -kv[1])[:12]))
     rep = {"evaluations": evals, "distinct_nontrivial": len(sigs), "violations": viol, "samples": samples, "counters": cnt, "notes": notes,
            "exhaustive": False, "dropped_violations": max(dropped, 0)}
-    return C.finish("C05", tier, seed, t0, "exploration", rep, ASSUME, RULE, min_evals=min(200, n // 2), inconclusive=inconc)
+    return C.finish("C05", tier, seed, t0, "exploration", rep, ASSUME, RULE, min_evals=min(160, n // 2), inconclusive=inconc)
 
 
 def replay(path):
@@ -1223,8 +1332,10 @@ def replay(path):
     C.build_rt()
     work = C.fresh_dir("C05", "replay")
     # the recorded program is re-judged with the recorded expectations (no generator involved)
-    case = {"seed": wit["seed"], "idx": wit["idx"], "text1": wit["files"]["main.capy"], "mode": wit["mode"], "pred_undef": wit["pred_undef"], "sels": wit["sels"],
-            "uses": wit["uses"], "bindings": wit["bindings"], "obs": wit["obs"]}
+    case = {"seed": wit["seed"], "idx": wit["idx"], "text1": wit["files"]["main.capy"], "mode": wit.get("mode", "mixed"), "pred_undef": wit["pred_undef"],
+            "sels": wit.get("sels") or list(range(wit.get("nsel", 1))),
+            "uses": wit["uses"], "bindings": wit["bindings"], "obs": wit["obs"],
+            "extra_files": {k: v for k, v in wit["files"].items() if k not in ("main.capy", "pass2.capy")}}
     regenerated = build_case(wit["seed"], wit["idx"], C.Rng(wit["seed"], 40000 + wit["idx"]).range(30, 90))
     if regenerated["text1"] == case["text1"]:
         case["_prog"] = regenerated["_prog"]
@@ -1248,14 +1359,14 @@ def replay(path):
 
 def replay_recorded(case, wit, d):
     o = {"p1": None, "p2": None, "runs": {}, "text2": wit["files"].get("pass2.capy"), "exp": wit.get("exp"), "zeroed": wit.get("zeroed", case["pred_undef"])}
-    c1 = compile_retry(os.path.join(d, "p1"), {"main.capy": case["text1"]})
+    c1 = compile_retry(os.path.join(d, "p1"), dict(case["extra_files"], **{"main.capy": case["text1"]}))
     o["p1"] = {"accepted": c1.accepted, "rejected": c1.rejected, "internal": c1.internal_error, "psig": c1.panic_sig() if c1.internal_error else None,
-               "watchdog": bool(c1.timed_out or c1.cpu_exceeded), "diags": diags(c1), "brief": c1.brief()[:600]}
+               "watchdog": bool(c1.timed_out or c1.cpu_exceeded), "diags": diags(c1), "brief": brief(c1)}
     if o["text2"] is None or o["exp"] is None:
         return o
-    c2 = compile_retry(os.path.join(d, "p2"), {"main.capy": o["text2"]})
+    c2 = compile_retry(os.path.join(d, "p2"), dict(case["extra_files"], **{"main.capy": o["text2"]}))
     o["p2"] = {"accepted": c2.accepted, "rejected": c2.rejected, "internal": c2.internal_error, "psig": c2.panic_sig() if c2.internal_error else None,
-               "watchdog": bool(c2.timed_out or c2.cpu_exceeded), "diags": diags(c2), "brief": c2.brief()[:600]}
+               "watchdog": bool(c2.timed_out or c2.cpu_exceeded), "diags": diags(c2), "brief": brief(c2)}
     if c2.accepted:
         exe, err = R.link(os.path.join(d, "p2"), c2.obj)
         if exe is None:
